@@ -169,3 +169,37 @@ Theorem C01_lz_frame_round_trip : forall cfg d p dictID lits qs regen rest x1 li
 Proof. exact decode_enc_frame_one_cblock. Qed.
 Print Assumptions C01_lz_frame_round_trip.
 
+
+(* ---- non-vacuity: "abc" + a 9-byte match at distance 3 is a parse of "abcabcabcabc"; it meets every hypothesis of the
+        theorems above, the model frame is the 22 bytes below (the real zstd decoder accepts exactly these bytes in the
+        correspondence run), and R decodes it back ---- *)
+Definition ex_lits : list N := [97; 98; 99].
+Definition ex_qs : list eseq := [{| q_ll := 3; q_ml := 9; q_ofv := 6 |}].
+Definition ex_regen : list N := [97; 98; 99; 97; 98; 99; 97; 98; 99; 97; 98; 99].
+
+Example ex1 : Forall seq_in_range ex_qs.
+Proof. constructor; [|constructor]. unfold seq_in_range, ex_qs; cbn [q_ll q_ml q_ofv]. change (2 ^ 29) with 536870912. lia. Qed.
+
+Example ex2 : lz_exec ex_qs (1, 4, 8) [] ex_lits = Some (rev ex_regen, [], (3, 1, 4)).
+Proof. timeout 60 vm_compute. reflexivity. Qed.
+
+Definition ex_x := x_block_start (x_init None).
+Example ex3 : exists x1 lits1 rep1, exec_seqs true 12 12 ex_qs (1, 4, 8) ex_x ex_lits = Ok (x1, lits1, rep1) /\ x_blk x1 + lenN lits1 <= 12.
+Proof.
+  assert (H : match exec_seqs true 12 12 ex_qs (1, 4, 8) ex_x ex_lits with Ok (x1, l1, _) => (x_blk x1 + lenN l1 <=? 12) | _ => false end = true).
+  { timeout 60 vm_compute. reflexivity. }
+  destruct (exec_seqs true 12 12 ex_qs (1, 4, 8) ex_x ex_lits) as [[[x1 l1] r1]|]; [|discriminate].
+  exists x1, l1, r1. split; [reflexivity|]. apply N.leb_le. exact H.
+Qed.
+
+Definition ex_p := {| fp_windowLog := 19; fp_contentSize := true; fp_checksum := true; fp_noDictID := false; fp_magicless := false |}.
+Definition ex_payload : bytes := match enc_cblock_basic ex_lits ex_qs with Some p => p | None => [] end.
+Example ex4 : enc_cblock_basic ex_lits ex_qs = Some ex_payload /\ lenN ex_payload <= 12.
+Proof. split; [timeout 60 vm_compute; reflexivity|]. timeout 60 vm_compute. discriminate. Qed.
+
+Example ex5 : enc_frame ex_p 0 [EBComp ex_payload ex_regen]
+  = [40; 181; 47; 253; 36; 12; 77; 0; 0; 24; 97; 98; 99; 1; 0; 22; 110; 8; 127; 7; 121; 150].
+Proof. timeout 120 vm_compute. reflexivity. Qed.
+
+Example ex6 : match decode_frame default_config None (enc_frame ex_p 0 [EBComp ex_payload ex_regen]) with Ok (out, _, rest) => (out, rest) | Err _ _ => ([], [1]) end = (ex_regen, []).
+Proof. timeout 120 vm_compute. reflexivity. Qed.
